@@ -64,6 +64,8 @@ func sessionOptsFor(batch string) SessionOpts {
 		return SessionOpts{MaxCallers: 4, MaxCalls: 3, BadInputs: true, UnknownStep: true, BigPayloads: true, RichSchemas: true, SlowSteps: true, Latency: true}
 	case "c05.signals":
 		return SessionOpts{MaxCallers: 3, MaxCalls: 3, Signals: true, BadInputs: true, BigPayloads: true, SlowSteps: true}
+	case "c13.session":
+		return SessionOpts{MaxCallers: 4, MaxCalls: 2, BigPayloads: true, RichSchemas: true, BadInputs: true}
 	case "c09.session":
 		return SessionOpts{MaxCallers: 2, MaxCalls: 3, Signals: true, BadInputs: true, RichSchemas: true, BigPayloads: true}
 	case "c05.misbehave":
@@ -163,7 +165,7 @@ func runSessionPlan(t *testing.T, plan *SessionPlan, tape *rt.Tape, strat rt.Str
 			obs.S2C.KillWrite()
 		}
 	}
-	out := rt.Run(t, rt.Config{Tape: tape, Strategy: strat, MaxSteps: 300000, Trace: trace, OnPanic: onPanic}, func(s *rt.Sim) {
+	out := rt.Run(t, rt.Config{Tape: tape, Strategy: strat, MaxSteps: sessionMaxSteps(), Trace: trace, OnPanic: onPanic, LocalSeams: rt.RaceBuild}, func(s *rt.Sim) {
 		simRef = s
 		RunSession(s, plan, obs)
 	})
@@ -238,14 +240,14 @@ func runSessionPlan(t *testing.T, plan *SessionPlan, tape *rt.Tape, strat rt.Str
 	sample["steps"] = out.Steps
 	sample["switches"] = out.Switches
 	rec.Sample = sample
-	if out.BubblePanic != "" && !out.Deadlock {
-		rec.Outcome = "infra"
-		rec.Reason = "bubble panic: " + out.BubblePanic
-		return *rec
-	}
 	if out.Budget {
 		rec.Outcome = "infra"
-		rec.Reason = "step budget exceeded"
+		rec.Reason = fmt.Sprintf("step budget exceeded (%d steps)", out.Steps)
+		return *rec
+	}
+	if out.BubblePanic != "" && !out.Deadlock {
+		rec.Outcome = "infra"
+		rec.Reason = "bubble panic: " + trunc(out.BubblePanic, 3000)
 		return *rec
 	}
 	_ = time.Minute
@@ -283,4 +285,12 @@ func describable(pr *PluginRecipe) (why string) {
 		return err.Error()
 	}
 	return ""
+}
+
+// sessionMaxSteps: the race flavour yields before every statement of the schema package as well.
+func sessionMaxSteps() int {
+	if rt.RaceBuild {
+		return 6000000
+	}
+	return 300000
 }
